@@ -30,6 +30,10 @@ using namespace BaseGraph;
 struct IObj {
     virtual ~IObj() {}
     virtual std::unique_ptr<IObj> clone() const = 0;
+    virtual std::unique_ptr<IObj> moveClone() = 0;       // move construction (the source gets its value back)
+    virtual void moveAssignFrom(IObj &other) = 0;        // move assignment   (the source gets its value back)
+    virtual void swapWith(IObj &other) = 0;              // std::swap
+    virtual void selfAssign() = 0;                       // a = a
     virtual std::string family() const = 0; // e.g. "LabeledDirectedGraph<int>"
     // returns "ok", "out_of_range", "invalid_argument" or "other:<what>"
     virtual std::string apply(const json &call) = 0;
@@ -175,6 +179,7 @@ template <class G> class Obj : public IObj {
     std::unique_ptr<EdgesView> keptView;
     Obj() : g(0) { keptView.reset(new EdgesView(g.edges())); }
     explicit Obj(const G &o, int v = 0) : g(o), variant(v) { keptView.reset(new EdgesView(g.edges())); }
+    Obj(G &&o, int v, int /*moved*/) : g(std::move(o)), variant(v) { keptView.reset(new EdgesView(g.edges())); }
     Obj(const Obj &) = delete;
     Obj &operator=(const Obj &) = delete;
 
@@ -182,6 +187,27 @@ template <class G> class Obj : public IObj {
         auto *c = new Obj<G>(g, variant); // copy constructor of the class
         c->sawHuge = sawHuge;
         return std::unique_ptr<IObj>(c);
+    }
+    std::unique_ptr<IObj> moveClone() override {
+        auto *c = new Obj<G>(std::move(g), variant, 0);
+        c->sawHuge = sawHuge;
+        g = c->g;
+        return std::unique_ptr<IObj>(c);
+    }
+    void moveAssignFrom(IObj &o) override {
+        auto &src = static_cast<Obj<G> &>(o);
+        g = std::move(src.g);
+        sawHuge = src.sawHuge;
+        src.g = g;
+    }
+    void swapWith(IObj &o) override {
+        auto &x = static_cast<Obj<G> &>(o);
+        std::swap(g, x.g);
+        std::swap(sawHuge, x.sawHuge);
+    }
+    void selfAssign() override {
+        G &alias = g;
+        g = alias;
     }
     std::string family() const override { return I::name() + (variant ? (I::kind == KindTag::Multi ? "[multiplicities in units of 2^30]" : "[inexact weights]") : ""); }
     bool equals(const IObj &o) const override { return g == static_cast<const Obj<G> &>(o).g; }
@@ -196,6 +222,38 @@ template <class G> class Obj : public IObj {
         return os.str();
     }
 
+    // The value moves to ANOTHER object of the class, which then takes this one's place (the
+    // member is destroyed and copy-constructed in place from the receiver, so whatever the
+    // receiver got wrong stays visible); "selfassign" assigns the object to itself.
+    void relocate(const std::string &how) {
+        if (how == "selfassign") {
+            G &alias = g;
+            g = alias;
+            return;
+        }
+        auto replaceBy = [&](const G &receiver) {
+            g.~G();
+            new (&g) G(receiver);
+        };
+        if (how == "copyassign") {
+            G fresh(0);
+            fresh = g;
+            replaceBy(fresh);
+        } else if (how == "moveassign") {
+            G fresh(0);
+            fresh = std::move(g);
+            replaceBy(fresh);
+        } else if (how == "moveconstruct") {
+            G fresh(std::move(g));
+            replaceBy(fresh);
+        } else if (how == "swap") {
+            G fresh(0);
+            std::swap(fresh, g);
+            replaceBy(fresh);
+        } else
+            throw std::logic_error("unknown relocation " + how);
+    }
+
     std::string apply(const json &c) override {
         const std::string op = c.at("op");
         if (variant && c.contains("w") && c.at("w").get<int>() == 5)
@@ -207,6 +265,8 @@ template <class G> class Obj : public IObj {
         return classify([&] {
             if (op == "resize")
                 g.resize(c.at("k").get<size_t>());
+            else if (op == "relocate")
+                relocate(c.at("how").get<std::string>());
             else if (op == "clearEdges")
                 g.clearEdges();
             else if (op == "removeDuplicateEdges")
